@@ -642,7 +642,6 @@ func loopRunsToEmpty(l *natLoop, phi *ssa.Phi) bool {
 	return false
 }
 
-
 // reachesSuccessReturn: some return with a nil error (or a function without error result) is
 // reachable from b.
 func reachesSuccessReturn(b *ssa.BasicBlock) bool {
